@@ -120,7 +120,10 @@ func run(tapeJSON json.RawMessage, res *core.Result) {
 	}
 	simsync.Passive = true
 	gk.Seed(tp.RunSeed)
-	pol := refkdc.Policy{RequirePreauth: tp.Flow == "preauth", Hints: tp.Hints, CopyAddresses: true, KvnoInReply: tp.RunSeed%2 == 0}
+	pol := refkdc.Policy{RequirePreauth: tp.Flow == "preauth", Hints: tp.Hints, CopyAddresses: true, KvnoInReply: tp.RunSeed%2 == 0,
+		// some KDCs repeat the key derivation hints (ETYPE-INFO2 with the salt) in the AS-REP: the
+		// client's key then does not depend on the names in the reply
+		HintsInASRep: tp.RunSeed%3 == 0}
 	user := "alice"
 	if tp.Client == "alice/admin" {
 		user = tp.Client
